@@ -86,6 +86,9 @@ def case(draw, front, derived=None):
         ops = ((["new"] if live else ["new"] * 3) if free else []) + (["set", "set", "set", "get", "get", "get", "peek", "peek", "poke", "poke", "del"] if live else [])
         if front == "python" and live:
             ops.append("setro")
+        if front in ("python", "c") and live:
+            # a non-virtual method every class declares with the same signature: the object's own class answers
+            ops += ["who", "who"]
         op = draw(st.sampled_from(ops))
         if op == "new":
             # (instances of the derived class first: the inherited members and methods are what is at stake)
@@ -119,6 +122,8 @@ def case(draw, front, derived=None):
             ms = all_members(cs, which)
             k = draw(st.integers(0, len(ms) - 1))
             h.update(which=which, idx=k, value=draw(st.sampled_from([0, 3, -7, 120, 12])))
+        elif op == "who":
+            pass
         else:
             del live[s]
         hist.append(h)
@@ -138,6 +143,8 @@ def yaml_text(cs, options=None):
         for m in c["members"]:
             ds.append({"decl": "%s %s%s%s;" % (m["T"], m["cname"], " +readonly" if m["readonly"] else "",
                                               "+name(%s)" % m["name"] if m["renamed"] else "")})
+        if cs["front"] != "fortran":
+            ds.append({"decl": "void whoami() const"})
         ds.append({"decl": "void peek%s() const" % c["name"]})
         ds.append({"decl": "void poke%s(int idx, double v)" % c["name"]})
         decls.append({"decl": ("class %s : public %s" % (c["name"], c["base"])) if c["base"] else "class " + c["name"], "declarations": ds})
@@ -156,7 +163,8 @@ def subject(cs):
         hdr.append("class %s%s {\npublic:" % (n, " : public " + c["base"] if c["base"] else ""))
         for m in c["members"]:
             hdr.append("    %s %s;" % (m["T"], m["cname"]))
-        hdr += ["    %s();" % n, "    ~%s();" % n, "    void peek%s() const;" % n, "    void poke%s(int idx, double v);" % n, "};"]
+        hdr += ["    %s();" % n, "    ~%s();" % n, "    void peek%s() const;" % n, "    void poke%s(int idx, double v);" % n,
+                "    void whoami() const;", "};"]
         ms = all_members(cs, n)
         init = "".join("    %s = (%s)%r;\n" % (m["cname"], m["T"], init_value(cs, n, m)) for m in ms if m["owner"] == n)
         impl.append('%s::%s()\n{\n%s    printf("NEW %s\\n"); fflush(stdout);\n}' % (n, n, init, n))
@@ -164,6 +172,7 @@ def subject(cs):
         show = "".join('    printf("M %s %s\\n", (%s)%s);\n' % (m["cname"], "%.17g" if is_float(m["T"]) else "%ld",
                                                               "double" if is_float(m["T"]) else "long", m["cname"]) for m in ms)
         impl.append('void %s::peek%s() const\n{\n    printf("E peek%s\\n");\n%s    fflush(stdout);\n}' % (n, n, n, show))
+        impl.append('void %s::whoami() const\n{\n    printf("E whoami %s\\n"); fflush(stdout);\n}' % (n, n))
         sw = "".join("    if (idx == %d) %s = (%s)v;\n" % (k, m["cname"], m["T"]) for k, m in enumerate(ms))
         impl.append('void %s::poke%s(int idx, double v)\n{\n    printf("E poke%s %%d %%.17g\\n", idx, v);\n%s    fflush(stdout);\n}' % (n, n, n, sw))
     hdr.append("#endif")
@@ -196,6 +205,8 @@ def model(cs):
             objs[key][h["member"]] = h["value"]
         elif h["op"] == "setro":
             lines.append("RO AttributeError")
+        elif h["op"] == "who":
+            lines.append("E whoami " + h["cls"])
         elif h["op"] == "get":
             m = next(x for x in all_members(cs, h["cls"]) if x["cname"] == h["member"])
             lines.append("O " + _ctext(m["T"], objs[key][h["member"]]))
@@ -285,6 +296,8 @@ def c_driver(cs):
             m = next(x for x in all_members(cs, h["cls"]) if x["cname"] == h["member"])
             out.append(('    printf("O %%.17g\\n", (double)%sget_%s(&%s));' if is_float(m["T"]) else
                         '    printf("O %%ld\\n", (long)%sget_%s(&%s));') % (fn, m["name"], var))
+        elif h["op"] == "who":
+            out.append("    %swhoami(&%s);" % (fn, var))
         elif h["op"] == "peek":
             out.append("    %speek_%s(&%s);" % (fn, h["which"].lower(), var))
         else:
@@ -313,6 +326,8 @@ def py_driver(cs):
         elif h["op"] == "get":
             m = next(x for x in all_members(cs, h["cls"]) if x["cname"] == h["member"])
             out.append("print('O ' + (%s), flush=True)" % (("'%%.17g' %% %s.%s" if is_float(m["T"]) else "'%%d' %% %s.%s") % (var, m["name"])))
+        elif h["op"] == "who":
+            out.append("%s.whoami()" % var)
         elif h["op"] == "peek":
             out.append("%s.peek%s()" % (var, h["which"]))
         else:
